@@ -35,6 +35,9 @@ def run(ctx):
                       "must not accept a character outside that class")
     ctx.rule("R20-5", "the word the completion replaces starts at a byte offset: escaped_word_start converts its character "
                       "counter with a correction that accounts for every character not known to be ASCII")
+    ctx.rule("R20-6", "the word-start scanner tracks quotes like the tokenizer: it remembers which quote character opened "
+                      "(assigned together with the open flag) and closes only under equality with that character; a "
+                      "toggle on any quote character makes the other quote inside a name end the quoted region")
     ctx.rule("R20-2", "inside an open quote q, wrap_sep_string(q, name) escapes every character special inside q")
     ctx.rule("R20-3", "candidates: entries whose name starts_with the typed prefix; non-directories skipped when "
                       "for_dir; result sorted; unquoted names go through escape_path, quoted ones through wrap_sep_string")
@@ -49,6 +52,7 @@ def run(ctx):
                        "completers::escaped_word_start not found"):
             n = ispace.rule(ctx, crate, "R20-5", ["completers::escaped_word_start"])
             ctx.floor("R20-5", crate, "index-space obligations", n, 2)
+            quote_state_rule(ctx, crate)
     ctx.notes.append("completers exist only in the bin crate; the lib crate has no instance of these rules")
 
 
@@ -257,3 +261,78 @@ def candidate_rule(ctx, crate):
     ok2 = bool(wrp) and any(a[0] == "call" and last_seg(a[1]) == "is_empty" and v is False for a, v in dom_facts(b, wrp[0]))
     ctx.ob("R20-3", b.path, "unquoted names are escaped with escape_path, names inside an open quote with wrap_sep_string",
            ok1 and ok2, key="R20-3|%s|route" % b.path, crate=crate.kind)
+
+
+def quote_state_rule(ctx, crate):
+    b = crate.fn("completers::escaped_word_start")
+    if b is None:
+        return
+    # the loop and the cursor character
+    nb = None
+    for bb, t, c in b.calls():
+        if last_seg(c) == "next" and "Enumerate" in c:
+            nb = bb
+    if not ctx.require(nb is not None, "R20-6", "R20-6|%s|loop" % b.path, "character loop not found", b.path):
+        return
+    loop = None
+    for h, blocks in b.loops().items():
+        if nb in blocks and (loop is None or len(blocks) > len(loop)):
+            loop = blocks
+    cexpr = mir.fld(1, mir.fld(0, ("downcast", "Some", strip_sites(b.call_expr(nb))), "0"))
+    # the quote-state flag: a bool local that must be false for a space to count as a word separator, and that is
+    # not the backslash flag (the one set under `c == '\\'`)
+    gate = set()
+    for bi, si, st in b.stmts():
+        if bi in loop and st["k"] == "assign" and not st["place"]["p"] and b.locals[st["place"]["l"]]["ty"] == "bool" \
+                and mir.const_bool(b.rvalue_expr(st["rv"])) is True:
+            facts = dom_facts(b, bi, within=loop)
+            if any(strip_sites(a)[0] == "bin" and strip_sites(a)[1] == "Eq" and v is True and strip_sites(a)[2] == cexpr
+                   and const_char(strip_sites(a)[3]) == " " for a, v in facts):
+                for a, v in facts:
+                    if a[0] == "var" and v is False and b.locals[a[1]]["ty"] == "bool":
+                        gate.add(a[1])
+    flags = {}
+    for l in gate:
+        bs = False
+        for bi, si in b.defs.get(l, []):
+            if bi in loop:
+                for a, v in dom_facts(b, bi, within=loop):
+                    a2 = strip_sites(a)
+                    if a2[0] == "bin" and a2[1] == "Eq" and v is True and a2[2] == cexpr and const_char(a2[3]) == "\\":
+                        bs = True
+        if not bs:
+            flags[l] = []
+    for bi, si, st in b.stmts():
+        if bi in loop and st["k"] == "assign" and not st["place"]["p"] and st["place"]["l"] in flags:
+            flags[st["place"]["l"]].append((bi, si, st))
+    if not ctx.require(bool(flags), "R20-6", "R20-6|%s|flag" % b.path, "no quote-state flag found in the word-start scanner", b.path):
+        return
+    for l, assigns in sorted(flags.items()):
+        name = b.names.get(l) or "_%d" % l
+        opened, closed, other = [], [], []
+        for bi, si, st in assigns:
+            v = mir.const_bool(b.rvalue_expr(st["rv"]))
+            (opened if v is True else closed if v is False else other).append(bi)
+        # the remembered quote: a char local assigned the cursor character in an opening block
+        remembered = set()
+        for bi in opened:
+            for st in b.blocks[bi]["stmts"]:
+                if st["k"] == "assign" and not st["place"]["p"] and b.locals[st["place"]["l"]]["ty"] == "char" and \
+                        strip_sites(b.rvalue_expr(st["rv"])) == cexpr:
+                    remembered.add(st["place"]["l"])
+        ok_close = bool(closed)
+        for bi in closed:
+            good = False
+            for a, v in dom_facts(b, bi, within=loop):
+                a2 = strip_sites(a)
+                if a2[0] == "bin" and a2[1] == "Eq" and v is True:
+                    x, y = a2[2], a2[3]
+                    if (x == cexpr and y[0] == "var" and y[1] in remembered) or (y == cexpr and x[0] == "var" and x[1] in remembered):
+                        good = True
+            ok_close = ok_close and good
+        ok = bool(opened) and bool(remembered) and ok_close and not other
+        ctx.ob("R20-6", b.path, "quote state `%s`: opened together with remembering the character, closed only by that "
+                                "character" % name, ok, key="R20-6|%s|quote-state|%s" % (b.path, name), crate=crate.kind,
+               where=b.loc((other or closed or opened or [0])[0]),
+               detail=None if ok else "inside an open quote the other quote character (an apostrophe in a double-quoted name) "
+               "ends the quoted region for the word-start search: the next space splits the word being completed")
